@@ -319,6 +319,29 @@ impl ParsedPacket {
         if self.packet().len() + rr_len > DNS_MAX_UNCOMPRESSED_SIZE {
             bail!(DSError::PacketTooLarge)
         }
+        if section != Section::Question {
+            let name_len = Compress::raw_name_len(&rr.packet);
+            if rr_len >= name_len + DNS_RR_HEADER_SIZE
+                && BigEndian::read_u16(&rr.packet[name_len + DNS_RR_TYPE_OFFSET..])
+                    == Type::OPT.into()
+            {
+                // The parser only accepts a single OPT record, named after the root
+                // domain, in the additional section
+                if section != Section::Additional {
+                    bail!(DSError::InvalidPacket(
+                        "OPT RRs must be in the additional section"
+                    ));
+                }
+                if name_len != 1 {
+                    bail!(DSError::InvalidPacket(
+                        "OPT RRs must have the root domain as the domain name"
+                    ));
+                }
+                if self.offset_edns.is_some() {
+                    bail!(DSError::InvalidPacket("Only one OPT record is allowed"));
+                }
+            }
+        }
         let insertion_offset = self.insertion_offset(section)?;
         self.rrcount_inc(section)?;
         let packet_len = self.packet().len();
